@@ -85,6 +85,8 @@ class World:
         self.max_calls = 2000
         self.enabled = True
         self._arg = None
+        self.clock_sync = None
+        self.last_payload = None
 
     # ---------------------------------------------------------------- helpers
     def rel(self, path):
@@ -157,6 +159,8 @@ class World:
             self.fired.append((kind, label, relp, self.cur_op))
         if self.on_seam is not None:
             self.on_seam(label, relp)
+        if self.clock_sync is not None:
+            self.clock_sync()
         self.clock.tick()
         if kind == "crash-before":
             self._die("before:%s" % label)
@@ -241,6 +245,7 @@ class World:
 
     def write(self, fd, data):
         path = self.fd_paths.get(fd)
+        self.last_payload = bytes(data)
         kind = self.seam("write", path)
         if kind in ("eio", "enospc"):
             raise OSError(errno.ENOSPC if kind == "enospc" else errno.EIO, "injected " + kind)
@@ -323,6 +328,23 @@ class World:
         self.module_writes += 1
         self.after(k5, "unlink")
         return dst
+
+    def os_rename(self, which, src, dst):
+        """os.rename / os.replace called directly (not through shutil.move)"""
+        kind = self.seam("rename", dst)  # one label for rename/replace/shutil.move: fault plans stay valid
+        if kind in ("eio", "enospc", "rename-fails"):
+            raise OSError(errno.EIO, "injected " + kind, dst)
+        getattr(_real_os, which)(src, dst)
+        self.module_writes += 1
+        self.touched.append(self.rel(dst))
+        self.after(kind, "rename")
+
+    def os_remove(self, which, path):
+        kind = self.seam(which, path)
+        if kind in ("eio",):
+            raise OSError(errno.EIO, "injected " + kind, path)
+        getattr(_real_os, which)(path)
+        self.after(kind, which)
 
     def open(self, path, mode="r", *a, **kw):
         writing = any(c in mode for c in "wax+")
@@ -417,6 +439,18 @@ class OSFacade:
 
     def close(self, fd):
         return self._w.close(fd)
+
+    def rename(self, src, dst):
+        return self._w.os_rename("rename", src, dst)
+
+    def replace(self, src, dst):
+        return self._w.os_rename("replace", src, dst)
+
+    def remove(self, path):
+        return self._w.os_remove("remove", path)
+
+    def unlink(self, path):
+        return self._w.os_remove("unlink", path)
 
     def __getattr__(self, name):
         return getattr(_real_os, name)
